@@ -96,6 +96,14 @@ def redisRun : History → Store → List String
   | [], _ => []
   | (now, op) :: h, s => renderRedis op (repoView op (step dflt now op s).2) :: redisRun h (step dflt now op s).1
 
+/-- **Both backends give the same answers** to the repository-layer components
+(`StorageBasedLock`, `CleanupManager`, `GenericRepository`, typed adapters) run on the same scenario:
+the list of component answers on the memory backend equals the list on the Redis backend, and no
+component panicked. (Every storage call the components make is judged separately by
+`holdsSeq` / `holdsRepo` on the recorded history.) -/
+def holdsSame (mem red : List String) : Bool :=
+  mem == red && !(mem.any (fun t => t.startsWith "panic:"))
+
 /-! ## Concurrent callers -/
 
 /-- A caller during the search: calls still to explain, answers still to explain. -/
